@@ -406,6 +406,23 @@ class Impl:
                              for v in list(res)])
         if cmd == "views":
             return self.views(self.get(toks[1]))
+        if cmd == "stepchanges":
+            # read through a copy (which carries both columns verbatim) so the read does not disturb the object
+            f = self.get(toks[1]).copy()
+            sc_ = f.step_changes
+            return ("pairs", [(self.tick(k), val(v)) for k, v in sc_.items()])
+        if cmd == "deltaroundtrip":
+            # force the delta form, drop the value form the way layer() does, and read the values back
+            f = self.get(toks[1]).copy()
+            if f._data is None:
+                return self.frame_of(f)
+            f.step_changes
+            g = sc.Stairs._new(initial_value=f.initial_value, data=f._data[["delta"]].copy(), closed=f.closed)
+            return self.frame_of(g)
+        if cmd == "consistent":
+            # internal consistency of all structural views of the object itself (no comparison of the frame)
+            r = self.views(self.get(toks[1]))
+            return r if r[0] == "err" else ("text", "consistent")
         if cmd == "arraybin":
             op, other = toks[1:3]
             rest = toks[3:]
